@@ -138,7 +138,8 @@ class interface(pdb2sql):
                                 not only_backbone_atoms]) and not (
                             excludeH and atName2[k][0] == 'H')]
                     if len(pairs) > 0:
-                        index_contact_pairs[index[chain1][i]] = pairs
+                        index_contact_pairs.setdefault(
+                            index[chain1][i], []).extend(pairs)
                         index_contact[chain1] += [index[chain1][i]]
                         index_contact[chain2] += pairs
 
